@@ -290,6 +290,10 @@ Twin(p, ev) ==
 SeqPanic ==
   /\ IsEv("sc") /\ e.res = "panic"
   /\ Chk("C09", "no-panic", FALSE)
+  \* sequential calls in a concurrent scenario's trace are the callers' wind-down (frees of what they hold, drain)
+  /\ Chk("C03", "no-panic", FALSE)
+  \* a call with invalid arguments must be rejected with the argument error - a panic is not a rejection
+  /\ Chk("C08", "invalid-argument-rejected", (e.op \in {"get", "put"}) => CallCheck(cfg, e))
   /\ l' = l + 1
   /\ UNCHANGED <<props, cfg, fr, whole, hidden, ot, os, drained, c11ok, pend, lin, held, fuzzy, snap>>
 
@@ -310,6 +314,7 @@ SeqGet ==
 SeqPut ==
   /\ IsEv("sc") /\ e.op = "put" /\ e.res # "panic"
   /\ PutAdmissible(cfg, fr, whole, hidden, e, TRUE)
+  /\ Chk("C03", "free-of-held-block-succeeds", Has(e, "epilogue") => e.res = "ok")
   /\ Chk("C02", "known-result", e.res \in {"ok", "mem", "arg", "panic"})
   /\ LET f2 == FrAfter(cfg, fr, e) w2 == WholeAfter(cfg, whole, e)
      IN /\ fr' = f2 /\ whole' = w2
